@@ -88,3 +88,73 @@ KEY_EMIT = [
     (5, "base_iv", "bstr", ["nonempty:base_iv"]),
 ]
 KEY_EXTRAS = "params"
+
+# ---------------------------------------------------------------------------------------------------------
+# to-be-signed / to-be-MACed / AEAD additional data (RFC 8152 sections 4.4, 6.3, 5.3)
+# structure function -> the array it serialises, as roles of its parameters (0-based)
+STRUCTURES = {
+    "sign::sig_structure_data": {"ctx_enum": "sign::SignatureContext", "text": "sign::SignatureContext::text",
+                                 "elements": [("context", 0), ("protected", 1), ("optional-protected", 2), ("bstr", 3), ("bstr", 4)]},
+    "mac::mac_structure_data": {"ctx_enum": "mac::MacContext", "text": "mac::MacContext::text",
+                                "elements": [("context", 0), ("protected", 1), ("bstr", 2), ("bstr", 3)]},
+    "encrypt::enc_structure_data": {"ctx_enum": "encrypt::EncryptionContext", "text": "encrypt::EncryptionContext::text",
+                                    "elements": [("context", 0), ("protected", 1), ("bstr", 2)]},
+}
+
+RECIPIENT_CONTEXTS = {"EncRecipient", "MacRecipient", "RecRecipient"}
+
+# Direct callers of the structure functions and the abstract arguments they must pass (DESIGN B.3).
+#   self: 'ref' = &self method (message types), 'builder' = method of a builder wrapping the message in field 0
+#   context: variant name, or ('param', i) = caller-selected (recipient contexts only, guarded)
+#   sign: None = no sign_protected slot, 'none' = Option::None, ('param', i) = Some(<param i>.protected)
+#   aad: parameter index;  payload: 'self-or-empty' | 'self-required' | ('detached', i) | None
+ROUTING = {
+    "sign::CoseSign::tbs_data": dict(fn="sign::sig_structure_data", self="ref", context="CoseSignature", sign=("param", 2), aad=1, payload="self-or-empty"),
+    "sign::CoseSign::tbs_detached_data": dict(fn="sign::sig_structure_data", self="ref", context="CoseSignature", sign=("param", 3), aad=2, payload=("detached", 1)),
+    "sign::CoseSign1::tbs_data": dict(fn="sign::sig_structure_data", self="ref", context="CoseSign1", sign="none", aad=1, payload="self-or-empty"),
+    "sign::CoseSign1::tbs_detached_data": dict(fn="sign::sig_structure_data", self="ref", context="CoseSign1", sign="none", aad=2, payload=("detached", 1)),
+    "mac::CoseMac::tbm": dict(fn="mac::mac_structure_data", self="ref", context="CoseMac", sign=None, aad=1, payload="self-required"),
+    "mac::CoseMac0::tbm": dict(fn="mac::mac_structure_data", self="ref", context="CoseMac0", sign=None, aad=1, payload="self-required"),
+    "encrypt::CoseRecipient::decrypt": dict(fn="encrypt::enc_structure_data", self="ref", context=("param", 1), sign=None, aad=2, payload=None, needs_ciphertext=True),
+    "encrypt::CoseRecipientBuilder::aad": dict(fn="encrypt::enc_structure_data", self="builder-ref", context=("param", 1), sign=None, aad=2, payload=None),
+    "encrypt::CoseEncrypt::decrypt": dict(fn="encrypt::enc_structure_data", self="ref", context="CoseEncrypt", sign=None, aad=1, payload=None, needs_ciphertext=True),
+    "encrypt::CoseEncryptBuilder::create_ciphertext": dict(fn="encrypt::enc_structure_data", self="builder", context="CoseEncrypt", sign=None, aad=2, payload=None),
+    "encrypt::CoseEncryptBuilder::try_create_ciphertext": dict(fn="encrypt::enc_structure_data", self="builder", context="CoseEncrypt", sign=None, aad=2, payload=None),
+    "encrypt::CoseEncrypt0::decrypt": dict(fn="encrypt::enc_structure_data", self="ref", context="CoseEncrypt0", sign=None, aad=1, payload=None, needs_ciphertext=True),
+    "encrypt::CoseEncrypt0Builder::create_ciphertext": dict(fn="encrypt::enc_structure_data", self="builder", context="CoseEncrypt0", sign=None, aad=2, payload=None),
+    "encrypt::CoseEncrypt0Builder::try_create_ciphertext": dict(fn="encrypt::enc_structure_data", self="builder", context="CoseEncrypt0", sign=None, aad=2, payload=None),
+}
+
+# Public helpers that hand a structure to the caller's closure (C03-C06 R-3/R-4, C06):
+#   kind 'verify': closure(stored field, structure) and the closure's result is returned unchanged
+#   kind 'create': closure(structure) / closure(plaintext, structure); result stored in `stores`
+#   via: the helper producing the structure; args: (self form, [param indices forwarded in order])
+HELPERS = {
+    "sign::CoseSign::verify_signature": dict(kind="verify", via="sign::CoseSign::tbs_data", closure=3, stored="signatures[which].signature", fwd=[2, "sig"]),
+    "sign::CoseSign::verify_detached_signature": dict(kind="verify", via="sign::CoseSign::tbs_detached_data", closure=4, stored="signatures[which].signature", fwd=[2, 3, "sig"]),
+    "sign::CoseSign1::verify_signature": dict(kind="verify", via="sign::CoseSign1::tbs_data", closure=2, stored="signature", fwd=[1]),
+    "sign::CoseSign1::verify_detached_signature": dict(kind="verify", via="sign::CoseSign1::tbs_detached_data", closure=3, stored="signature", fwd=[1, 2]),
+    "mac::CoseMac::verify_tag": dict(kind="verify", via="mac::CoseMac::tbm", closure=2, stored="tag", fwd=[1]),
+    "mac::CoseMac0::verify_tag": dict(kind="verify", via="mac::CoseMac0::tbm", closure=2, stored="tag", fwd=[1]),
+    "encrypt::CoseRecipient::decrypt": dict(kind="decrypt", via="encrypt::enc_structure_data", closure=3, stored="ciphertext"),
+    "encrypt::CoseEncrypt::decrypt": dict(kind="decrypt", via="encrypt::enc_structure_data", closure=2, stored="ciphertext"),
+    "encrypt::CoseEncrypt0::decrypt": dict(kind="decrypt", via="encrypt::enc_structure_data", closure=2, stored="ciphertext"),
+    "sign::CoseSign1Builder::create_signature": dict(kind="create", via="sign::CoseSign1::tbs_data", closure=2, stores="signature", fwd=[1], fallible=False),
+    "sign::CoseSign1Builder::try_create_signature": dict(kind="create", via="sign::CoseSign1::tbs_data", closure=2, stores="signature", fwd=[1], fallible=True),
+    "sign::CoseSign1Builder::create_detached_signature": dict(kind="create", via="sign::CoseSign1::tbs_detached_data", closure=3, stores="signature", fwd=[1, 2], fallible=False),
+    "sign::CoseSign1Builder::try_create_detached_signature": dict(kind="create", via="sign::CoseSign1::tbs_detached_data", closure=3, stores="signature", fwd=[1, 2], fallible=True),
+    "sign::CoseSignBuilder::add_created_signature": dict(kind="create-sig", via="sign::CoseSign::tbs_data", closure=3, stores="sig.signature", fwd=[2, "sig1"], fallible=False),
+    "sign::CoseSignBuilder::try_add_created_signature": dict(kind="create-sig", via="sign::CoseSign::tbs_data", closure=3, stores="sig.signature", fwd=[2, "sig1"], fallible=True),
+    "sign::CoseSignBuilder::add_detached_signature": dict(kind="create-sig", via="sign::CoseSign::tbs_detached_data", closure=4, stores="sig.signature", fwd=[2, 3, "sig1"], fallible=False),
+    "sign::CoseSignBuilder::try_add_detached_signature": dict(kind="create-sig", via="sign::CoseSign::tbs_detached_data", closure=4, stores="sig.signature", fwd=[2, 3, "sig1"], fallible=True),
+    "mac::CoseMacBuilder::create_tag": dict(kind="create", via="mac::CoseMac::tbm", closure=2, stores="tag", fwd=[1], fallible=False),
+    "mac::CoseMacBuilder::try_create_tag": dict(kind="create", via="mac::CoseMac::tbm", closure=2, stores="tag", fwd=[1], fallible=True),
+    "mac::CoseMac0Builder::create_tag": dict(kind="create", via="mac::CoseMac0::tbm", closure=2, stores="tag", fwd=[1], fallible=False),
+    "mac::CoseMac0Builder::try_create_tag": dict(kind="create", via="mac::CoseMac0::tbm", closure=2, stores="tag", fwd=[1], fallible=True),
+    "encrypt::CoseRecipientBuilder::create_ciphertext": dict(kind="encrypt", via="encrypt::CoseRecipientBuilder::aad", closure=4, stores="ciphertext", plaintext=2, fwd=[1, 3], fallible=False),
+    "encrypt::CoseRecipientBuilder::try_create_ciphertext": dict(kind="encrypt", via="encrypt::CoseRecipientBuilder::aad", closure=4, stores="ciphertext", plaintext=2, fwd=[1, 3], fallible=True),
+    "encrypt::CoseEncryptBuilder::create_ciphertext": dict(kind="encrypt", via="encrypt::enc_structure_data", closure=3, stores="ciphertext", plaintext=1, fallible=False),
+    "encrypt::CoseEncryptBuilder::try_create_ciphertext": dict(kind="encrypt", via="encrypt::enc_structure_data", closure=3, stores="ciphertext", plaintext=1, fallible=True),
+    "encrypt::CoseEncrypt0Builder::create_ciphertext": dict(kind="encrypt", via="encrypt::enc_structure_data", closure=3, stores="ciphertext", plaintext=1, fallible=False),
+    "encrypt::CoseEncrypt0Builder::try_create_ciphertext": dict(kind="encrypt", via="encrypt::enc_structure_data", closure=3, stores="ciphertext", plaintext=1, fallible=True),
+}
